@@ -2,3 +2,4 @@ import SaphyrVerif.Basic.Text
 import SaphyrVerif.Model.Scalars
 import SaphyrVerif.Model.Base64
 import SaphyrVerif.Spec.Scalars
+import SaphyrVerif.Model.PathMap
